@@ -125,11 +125,51 @@ impl Prop for PWalk {
             }
             std::fs::write(&f0path, b).unwrap();
         }
-        let args = walk_args(input, if files0 { Some(&f0path) } else { None });
+        let mut args = walk_args(input, if files0 { Some(&f0path) } else { None });
+        let byino = input.get("byino").and_then(|b| b.as_bool()).unwrap_or(false);
+        if byino {
+            // names that are not valid UTF-8 cannot be observed through find's (lossy) printers: observe the
+            // visit order through inode numbers and translate them back to the specification's byte paths
+            for a in args.iter_mut() {
+                if a == "-print0" {
+                    *a = "-printf".into();
+                }
+            }
+            let k = args.iter().position(|a| a == "-printf").unwrap();
+            args.insert(k + 1, "%i\\0".into());
+        }
         let errf = dir.parent().unwrap().join("stderr.txt");
         let r = run_find_inproc(&dir, &args, None, &errf);
         if r.panicked {
             return json!({"panic": true, "args": args});
+        }
+        if byino {
+            use std::os::unix::ffi::OsStrExt;
+            use std::os::unix::fs::MetadataExt;
+            let mut by: std::collections::HashMap<u64, Vec<u8>> = std::collections::HashMap::new();
+            let r0 = &arr(&input["roots"])[0];
+            let spell = json_to_bytes(&r0["spell"]);
+            let rootname = tree[r0["node"].as_u64().unwrap_or(1) as usize - 1].name.clone();
+            for i in 1..=tree.len() {
+                let rel = node_path(&tree, i);
+                if let Ok(m) = dir.join(&rel).symlink_metadata() {
+                    // the path as find names it: the starting point as spelled, then the names below it
+                    let relb = rel.as_os_str().as_bytes();
+                    let mut p = spell.clone();
+                    if relb.len() > rootname.len() {
+                        p.extend(&relb[rootname.len()..]);
+                    }
+                    by.insert(m.ino(), p);
+                }
+            }
+            let paths: Vec<Value> = split_nul(&r.out)
+                .iter()
+                .map(|p| {
+                    let ino: u64 = String::from_utf8_lossy(p).parse().unwrap_or(0);
+                    bytes_to_json(by.get(&ino).map(|v| v.as_slice()).unwrap_or(b"<unknown inode>"))
+                })
+                .collect();
+            return json!({"paths": paths, "exit": r.exit, "diag": !r.stderr.is_empty()});
         }
         json!({"paths": split_nul(&r.out).iter().map(|p| bytes_to_json(p)).collect::<Vec<_>>(),
                "exit": r.exit, "diag": !r.stderr.is_empty()})
@@ -274,6 +314,26 @@ impl Prop for PWalk {
                 }
             }
             cfg["prune"] = Value::Array(pr);
+        }
+        if self.flavour == "C03" && idx % 4 == 1 {
+            // sibling order is byte-wise also for names that are not valid UTF-8
+            let bad: [&[u8]; 6] = [b"x\xe8", b"x\xe9", b"\xff", b"\xf0\x9f\x98\x80", b"x\xc3", b"\xfe\xff"];
+            let t0 = tops[0];
+            for i in 1..=n {
+                if i != t0 && rng.chance(1, 2) {
+                    let cand = bad[rng.below(bad.len())];
+                    let parent = tree[i - 1]["parent"].clone();
+                    if !tree.iter().any(|t: &Value| t["parent"] == parent && json_to_bytes(&t["name"]) == cand) {
+                        tree[i - 1]["name"] = bytes_to_json(cand);
+                    }
+                }
+            }
+            let nm = json_to_string(&tree[t0 - 1]["name"]);
+            let spell = if nm.starts_with('-') { format!("./{}", nm) } else { nm };
+            let v = json!({"tree": tree, "roots": [{"spell": str_to_json(&spell), "node": t0}],
+                           "cfg": {"mode": "P", "min": min, "max": max, "depth": depth, "sorted": true, "prune": []},
+                           "form": rng.below(30), "byino": true});
+            return v;
         }
         let roots_last_empty = roots.last().map(|r| arr(&r["spell"]).is_empty()).unwrap_or(false);
         let mut v = json!({"tree": tree, "roots": roots, "cfg": cfg, "form": rng.below(30)});
